@@ -172,22 +172,69 @@ def classes(t, acc=None):
 # Coq literals
 # ---------------------------------------------------------------------------
 
+class Interner:
+    """Coq string literals are slow to elaborate: every distinct string of a case file is defined
+    once (`Definition sK := "..."`) and referred to by name."""
+
+    def __init__(self):
+        self.tab = {}
+
+    def __call__(self, s):
+        if not all(32 <= ord(c) < 127 for c in s):
+            raise DumpError(f"non printable-ascii string {s!r}")
+        if s not in self.tab:
+            self.tab[s] = f"s{len(self.tab)}_"
+        return self.tab[s]
+
+    def defs(self):
+        return "".join(f'Definition {n} : string := "' + s.replace('"', '""') + '".\n' for s, n in self.tab.items())
+
+
+_INTERN = None
+
+
+def interning():
+    """start a fresh interning table used by cq_str until stop_interning()"""
+    global _INTERN
+    _INTERN = Interner()
+    return _INTERN
+
+
+def stop_interning():
+    global _INTERN
+    _INTERN = None
+
+
 def cq_str(s):
+    if _INTERN is not None:
+        return _INTERN(s)
     if not all(32 <= ord(c) < 127 for c in s):
         raise DumpError(f"non printable-ascii string {s!r}")
     return '"' + s.replace('"', '""') + '"'
 
 
+def _fold(items, cons, nil):
+    out = nil
+    for it in reversed(items):
+        out = f"({cons} {it} {out})"
+    return out
+
+
 def cq_tree(t):
+    """Coq literal using the monomorphic builders of Tree.v (kC/aC/lC...)."""
     cls, attrs, kids = t
-    a = "[" + "; ".join(f"({cq_str(k)}, {cq_str(v)})" for k, v in attrs) + "]"
-    k = "[" + "; ".join(f"({cq_str(s)}, [" + "; ".join(cq_tree(x) for x in ns) + "])" for s, ns in kids) + "]"
+    a = _fold([f"{cq_str(k)} {cq_str(v)}" for k, v in attrs], "aC", "aN")
+    k = _fold([f"{cq_str(s)} " + _fold([cq_tree(x) for x in ns], "lC", "lN") for s, ns in kids], "kC", "kN")
     return f"(Node {cq_str(cls)} {a} {k})"
 
 
 def cq_path(p):
-    return "[" + "; ".join(f"({cq_str(s)}, {i})" for s, i in p) + "]"
+    return _fold([f"{cq_str(s)} {i}" for s, i in p], "pC", "pN")
 
 
 def cq_paths(ps):
-    return "[" + "; ".join(cq_path(p) for p in ps) + "]"
+    return _fold([cq_path(p) for p in ps], "ppC", "ppN")
+
+
+def cq_strs(xs):
+    return _fold([cq_str(s) for s in xs], "sC", "sN")
